@@ -18,6 +18,8 @@ import RV.Proofs.C01BsLinear
 import RV.Proofs.C01Trace
 import RV.Proofs.C01Ias15Sweep
 import RV.Proofs.C01Dispatch
+import RV.Proofs.C01Changeover
+import RV.Proofs.C01ChangeoverAll
 import RV.Proofs.C01Flow
 /-
   C01 — every integrator converges to the true N-body solution at its advertised order.   **PARTIAL.**
@@ -330,6 +332,40 @@ theorem c01_bs_quadrature_exact : ∀ k ∈ List.range 6, ∀ p ∈ [((0 : Rat),
 theorem c01_bs_linear_ode_rows : ∀ k ∈ List.range 4,
     let e := fun k => Gbs.gbs (fun _ y => y) 0 (1/2) 1 k - 1648721270700128 / 1000000000000000
     (if e (k+1) < 0 then -(e (k+1)) else e (k+1)) * 100 < (if e k < 0 then -(e k) else e k) := Bs.linear_ode_rows
+
+/-! ### MERCURIUS changeover functions (integrator_mercurius.c:42-79; `L_infinity` uses `exp` and is not modelled) -/
+/-- the hand model (RV/Model/Changeover.lean, operation order of the source) equals the three C functions executed by the translator
+    at 61 exact rational (d, dcrit) points each -/
+theorem c01_changeover_model_is_source : changeover_mercury.length = 61 ∧ changeover_C4.length = 61 ∧ changeover_C5.length = 61 ∧
+    (∀ e ∈ changeover_mercury, Changeover.Lmercury e.1.1 e.1.2 = e.2) ∧ (∀ e ∈ changeover_C4, Changeover.LC4 e.1.1 e.1.2 = e.2) ∧
+    (∀ e ∈ changeover_C5, Changeover.LC5 e.1.1 e.1.2 = e.2) := ChangeoverT.model_is_source
+/-- **for all d and all dcrit > 0** (ℚ): each of L_mercury, L_C4, L_C5 is 0 for d < dcrit/10, 1 for d > dcrit, lies in [0,1],
+    is continuous at both joins, and is mirror-symmetric inside the transition (L(d) + L(d') = 1 when y(d') = 1 − y(d)) -/
+theorem c01_changeover_properties : ∀ p ∈ [Changeover.pMercury, Changeover.pC4, Changeover.pC5], ∀ d dcrit : Rat, 0 < dcrit →
+    ((d < dcrit / 10 → Changeover.changeover p d dcrit = 0) ∧ (dcrit < d → Changeover.changeover p d dcrit = 1) ∧
+      (0 ≤ Changeover.changeover p d dcrit ∧ Changeover.changeover p d dcrit ≤ 1) ∧
+      Changeover.changeover p (dcrit / 10) dcrit = 0 ∧ Changeover.changeover p dcrit dcrit = 1) ∧
+    (∀ d', 0 ≤ Changeover.yOf d dcrit → Changeover.yOf d dcrit ≤ 1 → Changeover.yOf d' dcrit = 1 - Changeover.yOf d dcrit →
+      Changeover.changeover p d dcrit + Changeover.changeover p d' dcrit = 1) := by
+  intro p hp d dcrit hc
+  have hs : ChangeoverAll.SmoothStep p := by
+    simp only [List.mem_cons, List.not_mem_nil, or_false] at hp
+    rcases hp with rfl | rfl | rfl
+    · exact ChangeoverAll.ss_mercury
+    · exact ChangeoverAll.ss_c4
+    · exact ChangeoverAll.ss_c5
+  exact ⟨ChangeoverAll.changeover_properties p hs d dcrit hc, fun d' h0 h1 h => ChangeoverAll.changeover_mirror p hs d d' dcrit h0 h1 h⟩
+/-- L_mercury is monotone non-decreasing in the distance for every dcrit > 0 (full strength) -/
+theorem c01_changeover_mercury_monotone (d d' dcrit : Rat) (hc : 0 < dcrit) (h : d ≤ d') :
+    Changeover.Lmercury d dcrit ≤ Changeover.Lmercury d' dcrit := ChangeoverAll.mercury_changeover_mono d d' dcrit hc h
+/-- PARTIAL for L_C4 / L_C5 (full statement: `∀ d ≤ d', L d dcrit ≤ L d' dcrit` as for L_mercury; missing: monotonicity of the
+    degree-9 / degree-11 polynomials on [0,1] — `ChangeoverAll.changeover_mono` reduces the full statement to exactly that):
+    monotone on a grid of 251 distances across the transition -/
+theorem c01_changeover_monotone_partial : ∀ L ∈ [Changeover.Lmercury, Changeover.LC4, Changeover.LC5], ∀ k ∈ List.range 250,
+    L ((k : Rat) / 200 * (7/3)) (7/3) ≤ L (((k : Rat) + 1) / 200 * (7/3)) (7/3) := ChangeoverT.monotone_on_grid
+/-- non-vacuity: the hypotheses are satisfiable inside the transition zone (d = 0.4, d' = 0.7, dcrit = 1: y = 1/3, y' = 2/3) -/
+example : (0 : Rat) < 1 ∧ 0 ≤ Changeover.yOf (4/10) 1 ∧ Changeover.yOf (4/10) 1 ≤ 1 ∧ Changeover.yOf (7/10) 1 = 1 - Changeover.yOf (4/10) 1 ∧
+    Changeover.Lmercury (4/10) 1 = 17/81 := by decide +kernel
 
 /-! ### the abstract lemmas (any monoid, any flows, any step size) -/
 open Flow in
